@@ -822,26 +822,68 @@ func c12_6(c *core.Ctx, p *core.Prog) {
 	fn := a.produceIn
 	var newW, write, bytesC, reset *ssa.Call
 	var cp *ssa.Call
-	core.EachInstr(fn, func(i ssa.Instruction) {
-		cl, ok := i.(*ssa.Call)
-		if !ok {
-			return
+	// site: where an anchored call happens as seen from the per-message function — the call itself, or the call of
+	// the package helper that contains it (writer construction or the copy of the output moved into a helper;
+	// helpers with one call site have their parameters bound and their results followed)
+	site := map[*ssa.Call]*ssa.Call{}
+	scan := func(f *ssa.Function, via *ssa.Call) {
+		core.EachInstr(f, func(i ssa.Instruction) {
+			cl, ok := i.(*ssa.Call)
+			if !ok {
+				return
+			}
+			at := cl
+			if via != nil {
+				at = via
+			}
+			fo := core.CalleeObj(cl)
+			switch {
+			case core.IsPkgFunc(fo, arrowIPC, "NewWriter"):
+				newW, site[cl] = cl, at
+			case core.IsMethodOf(fo, arrowIPC, "Writer", "Write"):
+				write, site[cl] = cl, at
+			case core.IsMethodOf(fo, "bytes", "Buffer", "Bytes"):
+				bytesC, site[cl] = cl, at
+			case core.IsMethodOf(fo, "bytes", "Buffer", "Reset"):
+				reset, site[cl] = cl, at
+			}
+			if b, ok := cl.Call.Value.(*ssa.Builtin); ok && b.Name() == "copy" {
+				cp, site[cl] = cl, at
+			}
+		})
+	}
+	scan(fn, nil)
+	{
+		calls := map[*ssa.Function][]*ssa.Call{}
+		core.EachInstr(fn, func(i ssa.Instruction) {
+			if cl, ok := i.(*ssa.Call); ok {
+				if h := cl.Call.StaticCallee(); h != nil && core.FnPkgPath(h) == pkgArrowRecord && len(h.Blocks) > 0 && h != fn {
+					calls[h] = append(calls[h], cl)
+				}
+			}
+		})
+		for h, cs := range calls {
+			if len(cs) != 1 {
+				continue
+			}
+			before := [5]*ssa.Call{newW, write, bytesC, reset, cp}
+			scan(h, cs[0])
+			if before != [5]*ssa.Call{newW, write, bytesC, reset, cp} {
+				for k, prm := range h.Params {
+					if k < len(cs[0].Call.Args) {
+						core.BindParam(prm, cs[0].Call.Args[k])
+					}
+				}
+				core.MarkTransparent(h)
+			}
 		}
-		f := core.CalleeObj(cl)
-		switch {
-		case core.IsPkgFunc(f, arrowIPC, "NewWriter"):
-			newW = cl
-		case core.IsMethodOf(f, arrowIPC, "Writer", "Write"):
-			write = cl
-		case core.IsMethodOf(f, "bytes", "Buffer", "Bytes"):
-			bytesC = cl
-		case core.IsMethodOf(f, "bytes", "Buffer", "Reset"):
-			reset = cl
+	}
+	at := func(cl *ssa.Call) *ssa.Call {
+		if s, ok := site[cl]; ok {
+			return s
 		}
-		if b, ok := cl.Call.Value.(*ssa.Builtin); ok && b.Name() == "copy" {
-			cp = cl
-		}
-	})
+		return cl
+	}
 	pos := p.Pos(fn.Pos())
 	if newW == nil || write == nil || bytesC == nil {
 		c.Undecided("writer", pos, core.FuncName(fn), "ipc.NewWriter / Write / Bytes not found in the per-message closure")
@@ -852,7 +894,7 @@ func c12_6(c *core.Ctx, p *core.Prog) {
 	withSchema := false
 	core.BackSlice(newW.Call.Args[1], func(v ssa.Value) bool {
 		if cl, ok := v.(*ssa.Call); ok && core.IsPkgFunc(core.CalleeObj(cl), arrowIPC, "WithSchema") {
-			if sc, ok := cl.Call.Args[0].(*ssa.Call); ok && sc.Call.IsInvoke() && sc.Call.Method.Name() == "Schema" {
+			if sc, ok := core.ResolveParam(cl.Call.Args[0]).(*ssa.Call); ok && sc.Call.IsInvoke() && sc.Call.Method.Name() == "Schema" {
 				withSchema = true
 			}
 		}
@@ -862,7 +904,7 @@ func c12_6(c *core.Ctx, p *core.Prog) {
 		msgs = append(msgs, "the writer is not created with WithSchema(record.Schema())")
 	}
 	storedIn := false
-	for _, r := range core.Referrers(newW) {
+	for _, r := range core.Referrers(at(newW)) {
 		if s, ok := r.(*ssa.Store); ok {
 			if fa, ok := s.Addr.(*ssa.FieldAddr); ok && core.NamedOf(fa.X.Type()) == a.sp {
 				storedIn = true
@@ -878,7 +920,7 @@ func c12_6(c *core.Ctx, p *core.Prog) {
 		if iff == nil {
 			continue
 		}
-		if cmp, ok := iff.Cond.(*ssa.BinOp); ok && cmp.Op == token.EQL && core.IsNilConst(cmp.Y) && core.LoadedField(cmp.X) != nil && core.GuardedBy(iff, true, newW) {
+		if cmp, ok := iff.Cond.(*ssa.BinOp); ok && cmp.Op == token.EQL && core.IsNilConst(cmp.Y) && core.LoadedField(cmp.X) != nil && core.GuardedBy(iff, true, at(newW)) {
 			guardedNil = true
 		}
 	}
@@ -890,7 +932,7 @@ func c12_6(c *core.Ctx, p *core.Prog) {
 	}
 	c.Check(len(msgs) == 0, "writer|create", p.Pos(newW.Pos()), core.FuncName(fn), "one IPC writer per stream producer, created with the record's schema", strings.Join(msgs, "; "))
 	// order on the success path
-	order := core.Reachable(fn, write, bytesC) && !core.Reachable(fn, bytesC, write)
+	order := core.Reachable(fn, at(write), at(bytesC)) && !core.Reachable(fn, at(bytesC), at(write))
 	c.Check(order, "order|write-bytes", p.Pos(write.Pos()), core.FuncName(fn), "Write precedes Bytes", "the buffer is read before the record is written")
 	// the payload's Record derives from a fresh slice that is the copy target, never directly from Bytes()
 	var recVal ssa.Value
@@ -911,6 +953,20 @@ func c12_6(c *core.Ctx, p *core.Prog) {
 		if fresh == nil {
 			if _, isM := recVal.(*ssa.MakeSlice); isM {
 				fresh = recVal.(*ssa.MakeSlice)
+			}
+		}
+		if fresh == nil {
+			// the copy helper: every return of the helper hands out the slice it made
+			if hc, ok := core.Canon(recVal).(*ssa.Call); ok && hc == at(bytesC) && hc != bytesC {
+				for _, r := range core.Returns(hc.Call.StaticCallee()) {
+					if len(r.Results) == 1 {
+						if mk, ok := core.Canon(r.Results[0]).(*ssa.MakeSlice); ok {
+							fresh = mk
+						} else if mk, ok := r.Results[0].(*ssa.MakeSlice); ok {
+							fresh = mk
+						}
+					}
+				}
 			}
 		}
 		aliases := core.DerivesFrom(recVal, func(v ssa.Value) bool { return v == ssa.Value(bytesC) }) && fresh == nil
@@ -941,14 +997,14 @@ func c12_6(c *core.Ctx, p *core.Prog) {
 	} else if reset == nil {
 		msgs = append(msgs, "the buffer is never reset: every payload would repeat all earlier bytes of the sub-stream")
 	} else {
-		if cp != nil && !core.Reachable(fn, cp, reset) {
+		if cp != nil && at(cp) != at(reset) && !core.Reachable(fn, at(cp), at(reset)) {
 			msgs = append(msgs, "the buffer is reset before its bytes are copied")
 		}
 		for _, r := range core.Returns(fn) {
-			if len(r.Results) == 1 && core.Reachable(fn, bytesC, r) {
+			if len(r.Results) == 1 && core.Reachable(fn, at(bytesC), r) {
 				// success return = path that does not go through an error wrap: approximate with reachability from reset
-				if ok, _ := (core.PathQuery{Fn: fn, From: bytesC, To: r, Avoid: func(i ssa.Instruction) bool {
-					if i == ssa.Instruction(reset) {
+				if ok, _ := (core.PathQuery{Fn: fn, From: at(bytesC), To: r, Avoid: func(i ssa.Instruction) bool {
+					if i == ssa.Instruction(at(reset)) {
 						return true
 					}
 					// error returns store a non-nil error first
